@@ -119,7 +119,9 @@ def artifacts(need_native=True, need_mir=(), need_replay=False):
                 # restore mtime so the native incremental build is not invalidated
             res["mir"][crate] = out
         if need_replay:
-            rp = os.path.join(art, "replay")
+            rh = hashlib.sha256()
+            for f in ("Cargo.toml", "src/main.rs"): rh.update(open(os.path.join(VERIF, "replay", f), "rb").read())
+            rp = os.path.join(art, "replay-" + rh.hexdigest()[:10])
             if not os.path.exists(rp):
                 rsrc = os.path.join(SCRATCH, "replay")
                 if os.path.exists(rsrc):
